@@ -301,6 +301,33 @@ pub fn run(ctx: &Ctx) -> Outcome {
                     rep.count("bfs_states", st.states);
                     rep.count("bfs_transitions", st.transitions);
                     rep.count("bfs_dedup_hits", st.dedup_hits);
+                    // long input: a short piece, then a LONG piece (completing a block and carrying many whole
+                    // blocks), then export/import, then the rest; exported state compared with the reference
+                    {
+                        let ll = long_blocks(par_of(cfg)) * bs + bs / 2 + 1;
+                        let ldata = pattern(seed, 0xC09C, ll);
+                        let lwant = family_ref(cfg, "cfb", d.dir, key, &iv, &ldata).0;
+                        let lct: &[u8] = if d.dir == Dir::Enc { &lwant } else { &ldata };
+                        let lm = BufMachine { cfg, d, key, iv: &iv, data: &ldata, want: &lwant, ct: lct, lens: vec![], max_cuts: 0 };
+                        let pts = boundary_points(bs, ll);
+                        for &a in pts.iter().filter(|a| **a <= 2 * bs + 1) {
+                            for &b in pts.iter().filter(|b| **b > a) {
+                                rep.case(|| {
+                                    let mut o = rec::buf(cfg, d, key, &iv);
+                                    let mut out = ldata.clone();
+                                    o.process(&mut out[..a]);
+                                    o.process(&mut out[a..b]);
+                                    let (blk, pos) = o.get_state();
+                                    let (wb, wp) = lm.ref_state(b);
+                                    ensure!(pos == wp && blk == wb, format!("exported_value/bufcfb-{}", d.dir.s()), "{} after pieces [{}, {}]: get_state() = ({}, {}) want ({}, {})", d.ty, a, b - a, short(&blk), pos, short(&wb), wp);
+                                    let mut o2 = rec::buf_from_state(cfg, d, key, &blk, pos);
+                                    o2.process(&mut out[b..]);
+                                    ensure!(out == lwant, format!("cut_point/bufcfb-{}", d.dir.s()), "{}: pieces [{}, {}], export/import, rest: output {} want {} (first diff at byte {:?})", d.ty, a, b - a, short(&out), short(&lwant), first_diff(&out, &lwant));
+                                    Ok(())
+                                });
+                            }
+                        }
+                    }
                     // every single cut point explicitly (stateless): run(m[..k]); export; import; run(m[k..])
                     for k in 0..=l {
                         rep.case(|| {
